@@ -53,7 +53,9 @@ EnvOf(cmd) ==
   LET used == {i \in 1..4 : cmd.acct[OptOrder[i]].src = "env"}
   IN  [nm \in {OptNames[OptOrder[i]][2] : i \in used} |->
          cmd.acct[OptOrder[CHOOSE i \in used : OptNames[OptOrder[i]][2] = nm]].v]
-InputArg(cmd) == IF cmd.chan \in {"file", "fifo"} THEN <<"@F:in">> ELSE IF cmd.chan = "stdin" THEN <<"-">>
+\* the name of the input file (in the executor's scratch directory, given to the command as an absolute path)
+FileName(cmd) == IF "fname" \in DOMAIN cmd.inp THEN cmd.inp.fname ELSE "in"
+InputArg(cmd) == IF cmd.chan \in {"file", "fifo"} THEN <<"@F:" \o FileName(cmd)>> ELSE IF cmd.chan = "stdin" THEN <<"-">>
                  ELSE IF cmd.chan = "devstdin" THEN <<"/dev/stdin">>
                  ELSE IF cmd.chan = "arg" THEN <<cmd.inp.arg>> ELSE <<>>
 Argv(cmd) ==
